@@ -202,7 +202,9 @@ func VerifC11EventsNative() {
 		data = "not json"
 	} else if v.ReplayBool("flag:v.flatten.err") {
 		data = `{"@context": 42, "@id": "x"}`
-		if v.ReplayBool("flag:v.flatten.plain") {
+		if v.ReplayBool("flag:v.flatten.panic") {
+			data = `{"@context": {"@protected": 5, "apiContract": "http://a.ml/vocabularies/apiContract#"}, "@id": "http://x/a", "@type": "apiContract:EndPoint"}`
+		} else if v.ReplayBool("flag:v.flatten.plain") {
 			data = `{"@id": "http://example.com/g", "@graph": "http://example.com/x"}`
 		}
 	}
